@@ -66,7 +66,8 @@ def run(ctx):
     for variant in variants:
         isr = adcgen.IntermediateStates(gs, variant)
         prop = adcgen.Properties(isr)
-        X = isr_explicit.ISR(space, psi, E, variant, max_order, n_classes=2)
+        X = isr_explicit.ISR(space, psi, E, variant, max_order,
+                             n_classes=3 if variant in ("ip", "ea") else 2)
         cls = list(X.classes)
         # ---- expectation value blocks -----------------------------------
         gs_ser = X.op_gs(Dop)
@@ -75,6 +76,10 @@ def run(ctx):
             blocks += [(cls[0], cls[1], 0), (cls[1], cls[0], 0),
                        (cls[0], cls[1], 1), (cls[1], cls[0], 1),
                        (cls[1], cls[1], 0)]
+        # (blocks with the third class are not compared: the sign convention
+        # of the explicit triples-like configurations relative to the
+        # amplitude vector is not fixed by any lower-order quantity; the
+        # third-class transition moment below vanishes and is compared)
         for bs, ks, order in blocks:
             # both settings on one Properties instance (quick: lowest
             # diagonal block only, where the ground-state shift matters)
@@ -225,6 +230,8 @@ def run(ctx):
             4 if variant != "pp" or not quick else 3)]
         if len(cls) > 1:
             spaces += [(cls[1], 0, "same"), (cls[1], 1, "same")]
+        if len(cls) > 2:
+            spaces += [(cls[2], 1, "same")]
         # mixed left/right variants: the transition moment of the RIGHT
         # intermediate states with the default operator string
         other = {"pp": "ip", "ip": "pp", "ea": "pp"}.get(variant)
